@@ -3,10 +3,14 @@
 
    One case = one ensemble (R realizations x (unperturbed + P perturbations)) with NaNs injected per slot
    and column.  The real code is run on it several times:
-     full      EnsembleEvaluator.calculate(compute_functions=True, compute_gradients=True)
+     full      EnsembleEvaluator.calculate(compute_functions=True, compute_gradients=True), or a function request
+               followed by a gradient-only request on the same object (re-uses the cached function results)
      red_f     calculate(functions) on the ensemble with the failed realizations physically removed
      red_g     calculate(both) on the ensemble with the gradient-failed realizations and the failed
-               perturbations physically removed (possible when the survivors keep equally many perturbations)
+               perturbations physically removed (possible when the survivors keep equally many perturbations);
+               also with gradient.merge_realizations (one stacked solve over all surviving rows)
+     twin      calculate(both) on the same ensemble with everything that belongs to a failed realization or a
+               failed perturbation (values in the other columns, perturbation samples) replaced by other numbers
      per_real  otherwise: one single-realization run per surviving realization (its surviving perturbations),
                combined here with the model's combine_gradients
      opt/eval  an optimizer step (scripted optimizer: one evaluation) and an evaluator step -> exit codes
@@ -29,6 +33,13 @@ Inductive full_obs :=
 | FullAbort (code : Z)
 | FullRaise.
 
+(* the twin run: the same ensemble with every value and perturbation sample that belongs to a failed realization
+   or a failed perturbation replaced by another finite number (the NaN pattern is unchanged) *)
+Inductive twin_obs :=
+| TwinNone                                                   (* not run for this case *)
+| TwinAbort                                                  (* the twin run raised OptimizationAborted *)
+| Twin (f : option (list oQ * list oQ * oQ)) (failed : list bool) (g : option grads).
+
 Record case := {
   k_S : Q;
   k_cfg : config;
@@ -36,6 +47,7 @@ Record case := {
   k_raw_pmin : option nat;              (* perturbation_min_success as written *)
   k_P : nat;                            (* number_of_perturbations *)
   k_V : nat;                            (* number of variables *)
+  k_merge : bool;                       (* gradient.merge_realizations *)
   k_rows : list (list oQ * list oQ);                 (* evaluator output, unperturbed, per realization *)
   k_prows : list (list (list oQ * list oQ));         (* evaluator output per realization and perturbation *)
   k_fouts : list fout;
@@ -43,6 +55,7 @@ Record case := {
   k_red_f : option (option mat * option mat * (list oQ * list oQ * oQ));
   k_red_g : option grads;
   k_per_real : list (option (list vec * list vec));  (* per realization: gradient of every objective / constraint *)
+  k_twin : twin_obs;
   k_allow_nan : bool;                   (* allow_nan of the scripted optimizer *)
   k_opt_exit : Z;                       (* exit code of the optimizer step *)
   k_eval_exit : Z                       (* exit code of the evaluator step *)
@@ -165,12 +178,16 @@ Definition check_case (k : case) : bool :=
          let miss_f := is_none (r_functions mf) in
          let miss_g := negb gate_g in
          let exit_ok (obs model : Z) := Z.eqb obs model || (undef && Z.eqb obs (exit_code_of "TOO_FEW_REALIZATIONS")) in
-         exit_ok (k_opt_exit k)
-                 (optimizer_step_exit (f_abort || g_abort) (cfg_rmin c) (k_allow_nan k)
-                                      [(miss_f, r_failed mf); (miss_g, failed_g)])
+         (* outside the quantifier: merged estimation when no realization that succeeds for the gradient carries weight
+            (0/0): the stacked system is empty and the solver raises; the harness reports an escaping exception as -1 *)
+         let mraise := k_merge k && negb f_abort && gate_g && existsb g_is_undef (so ++ sc) in
+         (exit_ok (k_opt_exit k)
+                  (optimizer_step_exit (f_abort || g_abort) (cfg_rmin c) (k_allow_nan k)
+                                       [(miss_f, r_failed mf); (miss_g, failed_g)])
+          || (mraise && Z.eqb (k_opt_exit k) (-1)))
          && exit_ok (k_eval_exit k) (evaluator_step_exit f_abort [miss_f])
          && match k_full k with
-            | FullRaise => false
+            | FullRaise => mraise
             | FullAbort code => Z.eqb code (exit_code_of "TOO_FEW_REALIZATIONS") && (f_abort || g_abort || undef)
             | FullResults f g =>
                 negb (f_abort || g_abort)
@@ -202,12 +219,32 @@ Definition check_case (k : case) : bool :=
                           && match k_red_g k with
                              | Some rg => grads_close S rg (go, gc, gw)
                              | None =>
-                                 check_per_real S V c no (cfg_oem c) (r_ow mf) (map fst rows) failed_g fst (k_per_real k) go
-                                 && check_per_real S V c nc (cfg_cem c) (r_cw mf) (map snd rows) failed_g snd (k_per_real k) gc
+                                 if k_merge k
+                                 then (* one stacked solve: no per-realization reference; the twin run must exist *)
+                                      match k_twin k with Twin _ _ (Some _) => true | _ => false end
+                                 else check_per_real S V c no (cfg_oem c) (r_ow mf) (map fst rows) failed_g fst (k_per_real k) go
+                                      && check_per_real S V c nc (cfg_cem c) (r_cw mf) (map snd rows) failed_g snd (k_per_real k) gc
                              end
                       | None => false
                       end
                     else true)
+                (* nothing that belongs to a failed realization / perturbation influences what is reported *)
+                && match k_twin k with
+                   | TwinNone => true
+                   | TwinAbort => false
+                   | Twin tf tfailed tg =>
+                       list_eqb Bool.eqb tfailed failed_g
+                       && match tf, o_functions f with
+                          | Some a, Some b => fvals_close S a b
+                          | None, None => true
+                          | _, _ => false
+                          end
+                       && match tg, g_grads g with
+                          | Some a, Some b => grads_close S a b
+                          | None, None => true
+                          | _, _ => false
+                          end
+                   end
             end
      end.
 
